@@ -149,3 +149,29 @@ func Product(p productFamily, n int) string {
 	}
 	return p.Head + strings.Repeat(p.A, n) + p.Mid + strings.Repeat(p.B, n) + tail
 }
+
+// ---------------------------------------------------------------------------------------------------------------
+// Nested-context matrix: every context that is printed/parsed by a nested mechanism (here-document bodies of each flavour,
+// command substitutions, backquotes, process substitution, expansions with a word argument, arrays, function bodies,
+// case items, subshells) filled with every multi-line / continued payload. These are the inputs that leave state behind in
+// nested printers and lexer sub-states.
+var NestContexts = []string{
+	"cat <<-EOF\n\t%s\n\tEOF\n", "cat <<EOF\n%s\nEOF\n", "cat <<-EOF\n\ta\n\t\t%s\n\tEOF\n", "if x; then\n\tcat <<-EOF\n\t\t%s\n\tEOF\nfi\n", "cat <<-E1 <<-E2\n\t%s\n\tE1\n\t%s\n\tE2\n",
+	"echo \"%s\"\n", "echo %s\n", "x=%s\n", "echo ${x:-%s}\n", "a=(%s)\n", "f() {\n\techo %s\n}\n", "case x in\na) echo %s ;;\nesac\n", "(echo %s)\n", "echo <(echo %s)\n", "cat <<-EOF | tr a b\n\t%s\n\tEOF\n",
+}
+
+var NestPayloads = []string{
+	"$(a &&\n\tb)", "$(a |\n\tb)", "$(foo \\\n\tbar)", "$(if a; then\n\tb\nfi)", "$(a # c\nb)", "$({ a\nb; })", "$(case x in\na) b ;;\nesac)", "$(a\nb)", "$(a & b)", "`a &&\nb`", "$(a $(b |\n\tc))",
+	"$(cat <<-IN\n\tx\n\tIN\n)", "$(a <<IN\nx\nIN\n)", "$(for i in 1; do\n\ta\ndone)", "$(f() {\n\ta\n}; f)", "$(a ||\n\tb &&\n\tc)", "$((1 +\n2))", "${x:-$(a &&\n\tb)}", "$(a)", "$x",
+}
+
+// NestedMatrix: every context filled with every payload (all slots of a context get the same payload).
+func NestedMatrix() []string {
+	var out []string
+	for _, c := range NestContexts {
+		for _, p := range NestPayloads {
+			out = append(out, strings.ReplaceAll(c, "%s", p))
+		}
+	}
+	return out
+}
